@@ -21,9 +21,16 @@ PairOk(r) ==
     \* frontier: an emptied store does not keep growing (r.grew is set by the driver for fill/empty cycles)
     /\ ("frontierOk" \in DOMAIN r) => r.frontierOk
 
+\* fill / overwrite / empty cycles (C19): the allocation frontier after the i-th emptying does not keep growing:
+\* it stays within the frontier after the first emptying plus the pages the free lists themselves need
+CycleOk(r) ==
+    \A i \in 2..Len(r.bumps) : r.bumps[i] <= r.bumps[1] + r.slack
+
+RecOk(r) == IF "bumps" \in DOMAIN r THEN CycleOk(r) ELSE PairOk(r)
+
 TInit == l = 1 /\ live = {} /\ free = {} /\ fl = {} /\ bump = 1
 TNext == /\ l <= Len(Rec)
-         /\ IF PairOk(Rec[l]) THEN TRUE ELSE PrintT(<<"BAD-RECORD", l>>)
+         /\ IF RecOk(Rec[l]) THEN TRUE ELSE PrintT(<<"BAD-RECORD", l>>)
          /\ l' = l + 1 /\ UNCHANGED vars
 TSpec == TInit /\ [][TNext]_<<l, vars>>
 
